@@ -362,7 +362,12 @@ func (ex *Exec) altDesc(a alt) string {
 	if p.label != "" {
 		s += " " + p.label
 	}
-	if p.kind == kChan {
+	if p.kind == kChan && a.ci == -2 {
+		s += " [" + p.chanNames() + "]"
+		if p.hasDefault {
+			s += " default"
+		}
+	} else if p.kind == kChan {
 		if a.ci == -1 {
 			s += " default"
 		} else {
